@@ -2,8 +2,9 @@
 (* Behaviour generator: `tlc -simulate` on this module prints one JSON behaviour
    per line ("BEH {...}") when a run reaches Depth steps.  Arguments are drawn with
    RandomElement; half of them are "aimed" (the stored value of the row minus one,
-   equal, plus one), directory passes are continued with the returned cursor, and
-   earlier calls are replayed. *)
+   equal, plus one; activation times copied from the row with the same channel id and
+   the other channel type), batches with two operations on the same row, directory
+   passes are continued with the returned cursor, and earlier calls are replayed. *)
 EXTENDS Membership, Json, TLC
 CONSTANT Depth
 VARIABLE hist
@@ -28,11 +29,14 @@ Shape(k, m) ==
     [] k = "cack"     -> [ZeroArg EXCEPT !.ack = m.ack]
     [] OTHER          -> ZeroArg
 
-Arg(ex, cx, near, t, dr, dd, da, ds, dk, r, d, a, s, k2) ==
+\* sib: the activation time is copied from the row of the same user with the same
+\* channel id and the other channel type (equal activation times make the channel
+\* type the only thing that orders two entries of the directory index).
+Arg(ex, cx, sx, sib, near, t, dr, dd, da, ds, dk, r, d, a, s, k2) ==
   [tomb |-> t = 1,
    read |-> IF near THEN Clamp(ex.read + dr) ELSE r,
    del  |-> IF near THEN Clamp(ex.del + dd) ELSE d,
-   at   |-> IF near THEN Clamp(ex.at + da) ELSE a,
+   at   |-> IF sib THEN sx.at ELSE IF near THEN Clamp(ex.at + da) ELSE a,
    sv   |-> IF near THEN Clamp(ex.sv + ds) ELSE s,
    ack  |-> IF near THEN Clamp(cx.ack + dk) ELSE k2]
 
@@ -42,21 +46,45 @@ PresentC == {s \in AllSlots : cmd[s[1]][s[2]].present}
 OrAll(S) == IF S = {} THEN AllSlots ELSE S
 IsCmd(k) == k \in {"cupsert", "cack", "ctomb"}
 Creates(k) == k \in {"upsert", "ensure", "cupsert"}
+\* the channel with the same id and the other type (itself when there is none)
+Partner(c) == IF c % 2 = 1 THEN (IF c + 1 <= NCh THEN c + 1 ELSE c) ELSE c - 1
 
-\* Mutators are aimed at rows that exist (3 of 4), creators at any slot (1 of 2).
-RandOp ==
+\* One operation of a kind drawn from kb.  fixed = FALSE: mutators are aimed at rows
+\* that exist (3 of 4), creators at any slot (1 of 2); fixed = TRUE: on slot fs.
+Draw(kb, fixed, fs) ==
   {LET kk == Base(k)
-       sl == IF coin = 1 \/ (Creates(kk) /\ coin = 2) THEN sr ELSE IF IsCmd(kk) THEN sc ELSE sm
+       sl == IF fixed THEN fs
+             ELSE IF coin = 1 \/ (Creates(kk) /\ coin = 2) THEN sr ELSE IF IsCmd(kk) THEN sc ELSE sm
    IN [k |-> kk, u |-> sl[1], c |-> sl[2],
-       m |-> Shape(kk, Arg(mem[sl[1]][sl[2]], cmd[sl[1]][sl[2]], near, t, dr, dd, da, ds, dk, r, d, a, s, k2))] :
-     k \in Pick(KindBag), sm \in Pick(OrAll(PresentM)), sc \in Pick(OrAll(PresentC)), sr \in Pick(AllSlots),
-     coin \in Pick(1..4), near \in Pick(BOOLEAN), t \in Pick(1..4),
+       m |-> Shape(kk, Arg(mem[sl[1]][sl[2]], cmd[sl[1]][sl[2]], mem[sl[1]][Partner(sl[2])], sib = 1,
+                           near, t, dr, dd, da, ds, dk, r, d, a, s, k2))] :
+     k \in Pick(kb), sm \in Pick(OrAll(PresentM)), sc \in Pick(OrAll(PresentC)), sr \in Pick(AllSlots),
+     coin \in Pick(1..4), sib \in Pick(1..3), near \in Pick(BOOLEAN), t \in Pick(1..4),
      dr \in Pick({-1, 0, 1}), dd \in Pick({-1, 0, 1}), da \in Pick({-1, 0, 1}), ds \in Pick({-1, 0, 1}),
      dk \in Pick({-1, 0, 1}), r \in Pick(Vals), d \in Pick(Vals), a \in Pick(Ats), s \in Pick(SVs), k2 \in Pick(Vals)}
+RandOp == Draw(KindBag, FALSE, <<"u1", 1>>)
 
 CallStep  == \E o \in RandOp : Call(o)
 BatchStep == \E n \in Pick({1, 2, 3}) : \E o1 \in RandOp, o2 \in RandOp, o3 \in RandOp :
                Batch(SubSeq(<<o1, o2, o3>>, 1, n))
+\* Two (or three) operations on the SAME row in one batch: the later ones are resolved
+\* against what the earlier ones staged.  Command-channel binding: a (re-)bind followed
+\* by ack / tombstone / bind; conversation membership: a source write followed by a
+\* live-row mutator or another source write, and the opposite order.
+AckedC == {s \in PresentC : cmd[s[1]][s[2]].ack > 0 /\ ~cmd[s[1]][s[2]].tomb}
+LiveM  == {s \in PresentM : ~mem[s[1]][s[2]].tomb}
+PairStep ==
+  \E mode \in Pick(1..5) :
+    \E sl \in Pick(IF mode <= 2 THEN (IF AckedC # {} THEN AckedC ELSE OrAll(PresentC))
+                   ELSE (IF LiveM # {} THEN LiveM ELSE OrAll(PresentM))), nn \in Pick(1..4) :
+      \E o1 \in Draw(IF mode <= 2 THEN {"cupsert"} ELSE IF mode <= 4 THEN {"upsert", "ensure"}
+                     ELSE {"read", "hide", "activate"}, TRUE, sl),
+         o2 \in Draw(IF mode <= 2 THEN {"cack", "ctomb", "cupsert"}
+                     ELSE IF mode <= 4 THEN {"read", "hide", "activate", "upsert", "ensure"}
+                     ELSE {"upsert", "ensure"}, TRUE, sl),
+         o3 \in Draw(IF mode <= 2 THEN {"cack", "ctomb", "cupsert"} ELSE KindBag \ {"cupsert", "cupsert2", "cack", "cack2", "ctomb"},
+                     TRUE, sl) :
+        Batch(SubSeq(<<o1, o2, o3>>, 1, IF nn = 4 THEN 3 ELSE 2))
 Busy == {u \in Users : Cardinality({c \in Chans : mem[u][c].present}) >= 2}
 InPass == {u \in Users : pass[u].on}
 ListStep  ==
@@ -79,6 +107,8 @@ SimStep ==
   \/ CallStep
   \/ BatchStep
   \/ BatchStep
+  \/ PairStep
+  \/ PairStep
   \/ ListStep
   \/ ListStep
   \/ ListStep
